@@ -42,7 +42,8 @@ LUNITS = ["int", "A", "nm", "Bohr", "a.u.", "m", "SI"]
 ACCESSORS = ["convert", "convert_array", "manager", "manager_nm", "hamiltonian", "freqaxis", "molecule_ctor",
              "molecule_set", "mode_ctor", "mode_set", "coupling", "coupling_matrix", "corfce_reorg", "specdens_reorg",
              "agg_hamiltonian", "rwa_skeleton", "freqaxis_to_timeaxis", "length", "transition_width",
-             "diabatic_coupling", "adiabatic_coupling", "cutoff_coupling", "state_energy", "abs_rwa", "cfm_reorg"]
+             "diabatic_coupling", "adiabatic_coupling", "cutoff_coupling", "state_energy", "abs_rwa", "cfm_reorg",
+             "hierarchy_lam"]
 
 CALLS = ["build1", "build2", "build_modes", "rebuild", "diagonalize", "build_raises", "mol_hamiltonian", "mol_dipole",
          "mol_sbi", "rt_stR", "rt_stR_td", "rt_stF", "rt_cRF", "rt_unknown_raises", "redfield_rates", "foerster_rates",
@@ -325,6 +326,25 @@ def _check_matrix(case, ctx):
             with qr.energy_units(u2):
                 got = cfm.get_reorganization_energy(0, 0)
             cmp("conversion", got, orc.convert(lam, u1, u2))
+        elif acc == "hierarchy_lam":
+            # a hierarchy may be set up while any energy units are current: what it stores is in internal units
+            from quantarhei.qm.liouvillespace.heom import KTHierarchy
+            ta = qr.TimeAxis(0.0, 40, 2.0)
+            lam = float(1 + case["v"] % 200)
+            with qr.energy_units("1/cm"):
+                mols = []
+                for k in range(2):
+                    mm = qr.Molecule([0.0, 12000.0 + 100.0 * k])
+                    mm.set_transition_environment((0, 1), qr.CorrelationFunction(ta, dict(
+                        ftype="OverdampedBrownian", reorg=lam + 5.0 * k, cortime=50.0, T=300.0, matsubara=5)))
+                    mols.append(mm)
+                agg = qr.Aggregate(molecules=mols)
+            agg.build()
+            ham, sbi = agg.get_Hamiltonian(), agg.get_SystemBathInteraction()
+            ham.set_rwa([0, 1])
+            with qr.energy_units(u1):
+                hy = KTHierarchy(ham, sbi, 1)
+            cmp("stored-value", hy.lam, [orc.to_internal(lam, "1/cm"), orc.to_internal(lam + 5.0, "1/cm")])
         elif acc == "length":
             l1, l2 = case["l1"], case["l2"]
             with qr.length_units(l1):
